@@ -775,7 +775,11 @@ impl Builtins {
                     }
                     elems.push(Rc::new(P(Int(num))));
                     pos_list.push(pos.clone());
-                    num += step;
+                    // the next element would not fit an i64, so it is past `end`
+                    num = match num.checked_add(step) {
+                        Some(n) => n,
+                        None => break,
+                    };
                 }
             }
             _ => {
